@@ -99,7 +99,9 @@ func (c *perIPConn) Close() error {
 
 	err := cc.Close()
 	c.perIPConnCounter.Unregister(c.ip)
-	c.perIPConnCounter.perIPConnPool.Put(c)
+	// The wrapper is not returned to the pool: other holders (Shutdown's idle
+	// sweep, a deferred Close in a hijack handler) may call Close again, and on
+	// a recycled wrapper that would close and unregister somebody else's connection.
 	return err
 }
 
@@ -139,7 +141,9 @@ func (c *perIPTLSConn) Close() error {
 
 	err := cc.Close()
 	c.perIPConnCounter.Unregister(c.ip)
-	c.perIPConnCounter.perIPTLSConnPool.Put(c)
+	// The wrapper is not returned to the pool: other holders (Shutdown's idle
+	// sweep, a deferred Close in a hijack handler) may call Close again, and on
+	// a recycled wrapper that would close and unregister somebody else's connection.
 	return err
 }
 
